@@ -170,36 +170,8 @@ def exact_words_pass(ctx, gates):
 
 def filter_passes_two_matches(ctx):
     """abstract run of hit_matches: query not empty, two query words, two matched record words -> true"""
-    from .. import absint as AI
-    fb = ctx.facts.one("search::filter::hit_matches")
-    if not ctx.require("R13.e", "hit_matches", fb):
-        return
-
-    def oracle(t, args, body):
-        cn = t.get("cn") or ""
-        sy = ctx.sym(body)
-        if cn.endswith("Text::is_empty"):
-            return [AI.const(False)]
-        if cn.endswith(("Vec::as_slice", "Deref::deref")) and t["args"]:
-            p = U.field_path(sy.operand(t["args"][0]))
-            if p and p[2] and p[2][-1] in ("rmatches", "qmatches", "words"):
-                return [("slice", 2)]
-        if cn.endswith(("::len", "::is_empty")) and t["args"]:
-            p = U.field_path(sy.operand(t["args"][0]))
-            if p and p[2] and p[2][-1] in ("rmatches", "qmatches", "words"):
-                return [AI.const(2) if cn.endswith("len") else AI.const(False)]
-        return None
-    key = "two-matches-pass"
-    try:
-        res = AI.AbsInt(ctx, oracle).run_body(fb, [("sym", "query"), ("sym", "hit")])
-    except AI.Limit:
-        res = {AI.UNKNOWN}
-    if res == {AI.const(True)}:
-        ctx.ok("R13.e", key, fb.where(), "a hit with two matched record words and two matched query words passes the filter "
-               "(abstract run of hit_matches)", nontrivial=True)
-    else:
-        ctx.fail("R13.e", key, fb.where(), "hit_matches can reject a hit with two matched words: %s" % sorted(AI.show(x) for x in res),
-                 {"witness": "title 'metal detector', query 'detector metal'"})
+    RR.filter_passes(ctx, "R13.e", "two-matches-pass", 2, 2, 2, "a hit with two matched record words and two matched query words",
+                     "title 'metal detector', query 'detector metal'")
 
 
 def _empty_query_only(ctx):
@@ -258,7 +230,9 @@ def run(ctx):
     RC20.buffer_rules(ctx, None, None, "R20.f")
     from . import C20 as _RC20
     _RC20.api_effects(ctx, "R13.i", which=("add",))
-    return info("R13.i: add_record really adds the record to the addressed store on every call (the registry API is not exercised by the repository's tests). Necessary structure only (which record word a query word is assigned to is a runtime matter and is not decided): "
+    from . import r_join as _RJ
+    _RJ.plain_attempt_unguarded(ctx, "R13.j")
+    return info("R13.j: the word-to-word alternative of text_match calls word_match on every path (no pre-test in front of the gates). R13.i: add_record really adds the record to the addressed store on every call (the registry API is not exercised by the repository's tests). Necessary structure only (which record word a query word is assigned to is a runtime matter and is not decided): "
                 "R13.a the scan over record words restarts at the first word and covers all words for every query word; R13.b words are "
                 "passed over only when matched already; R13.c only a non-function match stops the scan; R13.d equal words pass the "
                 "length, Jaccard and DL gates; R13.e two matched words pass the filter (abstract run); R13.f gram generator, "
